@@ -147,7 +147,7 @@ def run_eof_bitstream(ctx):
             ctx.ok(rid, "eof-is-error:" + nm, "checked_sub (or an explicit `< n -> Err` test) + ErrorKind::UnexpectedEof", nontrivial=True, fn=f)
         else:
             ctx.bad(rid, "eof-is-error:" + nm, "Bitstream::%s no longer turns running out of bits into Error::Io(UnexpectedEof) (checked_sub %s, UnexpectedEof %s)" % (nm, has_cs, has_eof), fn=f)
-    ctx.floor(rid + ".counter-stores", 6)
+    ctx.floor(rid + ".counter-stores", 4)
 
 
 def guarded_sub(f, defs, st, bb):
